@@ -93,7 +93,7 @@ func buildBigFile(seed uint64, bi int, tier string) *vfile {
 	case 5:
 		f = bigPLY(r, "ascii", 131073+extra%2000, true)
 	case 6:
-		f = bigSTL(r, 8192+extra%9000)
+		f = bigSTL(r, 8192+extra%9000, stlHeaderKinds[(int(seed)+variant*3+2)%len(stlHeaderKinds)])
 	case 7:
 		f = bigSPZ(r, seed, variant, 16384+extra%20000)
 	case 8:
@@ -160,10 +160,9 @@ func bigPLY(r *rand.Rand, enc string, nv int, mesh bool) *vfile {
 	return f
 }
 
-func bigSTL(r *rand.Rand, n int) *vfile {
+func bigSTL(r *rand.Rand, n int, hk string) *vfile {
 	b := &bytes.Buffer{}
-	hdr := make([]byte, 80)
-	copy(hdr, "big binary stl by c14")
+	hdr := stlHeader(r, hk)
 	b.Write(hdr)
 	binary.Write(b, binary.LittleEndian, uint32(n))
 	rec := make([]byte, 50)
@@ -175,7 +174,7 @@ func bigSTL(r *rand.Rand, n int) *vfile {
 		b.Write(rec)
 	}
 	return &vfile{Format: "stl", Kind: "big/stl", Site: "stl.ReadMesh", Data: b.Bytes(), dec: decSTL, Records: n, WantPrims: n, BodyStart: 84,
-		BlockOffsets: blockOffsets(84, 50, n), Marks: []mark{{"header", 0}, {"count", 80}, {"triangles", 84}}, Desc: fmt.Sprintf("t%d", n)}
+		BlockOffsets: blockOffsets(84, 50, n), Marks: []mark{{"header", 0}, {"count", 80}, {"triangles", 84}}, Desc: fmt.Sprintf("t%d/%s", n, hk), STLHeader: hk}
 }
 
 func bigSPZ(r *rand.Rand, seed uint64, variant, n int) *vfile {
@@ -326,6 +325,9 @@ func runBigChunk(c *run.Ctx) (res run.Result) {
 	res.Sig = fmt.Sprintf("%s|%s|chunk%d/%d", f.Kind, f.Desc, ck, bigChunks)
 	res.SetAdd("large/files", fmt.Sprintf("%d:%s:%s", bi, f.Kind, f.Desc))
 	res.SetAdd("large/kinds", f.Kind)
+	if f.STLHeader != "" {
+		res.SetAdd("large/stl_header_kinds", f.STLHeader)
+	}
 	if ck == 0 {
 		res.Count("large/file_bytes/"+f.Format, int64(len(f.Data)))
 		res.Count("large/records/"+f.Format, int64(f.Records))
